@@ -1,6 +1,6 @@
 """Single source of truth for MANIFEST.json (tools/mkmanifest.py)."""
 
-FIX_COMMITS = ['cca4fac (C19 bbox int coercion)', '1b3ab08 28009fb (C05 cutout fill dtype / out-of-range integer fill)', '81c7236 (C05 multiply Quantity fill)', '1970dc7 e443d7c (C20 PixCoord.rotate any shape / differences in float)', 'c13e427 032fdea 32d7f72 d3bcfe5 (C01 polygon scalar contains / ellipse+rectangle offsets in float F1c / regular polygon follows assigned parameters F1r)', 'b692b96 (C14 FITS lexists)', 'd5e55fe (C14 encode before open)', '7575e32 ccc4c00 50480bb b15a97b d623722 727d915 942a7aa ec59199 (C17 validators (+ huge Python ints F11b)/meta/list (+ one-shot iterables in the constructor F13c and in extend F13d)/nvertices/text)', 'd91a439 7c95242 bdc0d0d 562b011 (C12 FITS exclude prefix / include+component / component dtype / ROTANG degrees)', '23f75f4 4b5524a 7cc5a6b fa5f94a 048db14 4a2f847 (C16/C06 compound sky meta, shape-mismatch ==, symmetric PixCoord ==, DS9 Path markers survive copy F15m, == with an extra frame attribute F15v, numpy-scalar vs Python-number parameters F22b)', 'dca4ab5 4987549 cb1965c (C18 text kwargs aliases / polygon origin in float F182 / circle radius float F183)', 'be2b52e f813781 bd2caa9 1c54a50 e6a38a6 3370b62 (C10 DS9 reader; last two: composite properties F105/F106)', 'd58a058 80f2f4f 193fdcf b51f440 4e1204d (C09 DS9 writer; frame attributes F35; reader accepts the trailing decimal point of precision=0 F38)', '90d029a 48bc62d 5176ec4 3bd1349 e7c5f7b 10da16e 120394c (C11/C13 CRTF; last one: frame attributes F34)', 'b532b53 (C06 point/line/text sky contains() shape F203)']
+FIX_COMMITS = ['cca4fac (C19 bbox int coercion)', '1b3ab08 28009fb (C05 cutout fill dtype / out-of-range integer fill)', '81c7236 (C05 multiply Quantity fill)', '1970dc7 e443d7c (C20 PixCoord.rotate any shape / differences in float)', 'c13e427 032fdea 32d7f72 d3bcfe5 (C01 polygon scalar contains / ellipse+rectangle offsets in float F1c / regular polygon follows assigned parameters F1r)', 'b692b96 (C14 FITS lexists)', 'd5e55fe (C14 encode before open)', '7575e32 ccc4c00 50480bb b15a97b d623722 727d915 942a7aa ec59199 (C17 validators (+ huge Python ints F11b)/meta/list (+ one-shot iterables in the constructor F13c and in extend F13d)/nvertices/text)', 'd91a439 7c95242 bdc0d0d 562b011 (C12 FITS exclude prefix / include+component / component dtype / ROTANG degrees)', '23f75f4 4b5524a 7cc5a6b fa5f94a 048db14 4a2f847 (C16/C06 compound sky meta, shape-mismatch ==, symmetric PixCoord ==, DS9 Path markers survive copy F15m, == with an extra frame attribute F15v, numpy-scalar vs Python-number parameters F22b)', 'dca4ab5 4987549 cb1965c (C18 text kwargs aliases / polygon origin in float F182 / circle radius float F183)', 'be2b52e f813781 bd2caa9 1c54a50 e6a38a6 3370b62 (C10 DS9 reader; last two: composite properties F105/F106)', 'd58a058 80f2f4f 193fdcf b51f440 4e1204d (C09 DS9 writer; frame attributes F35; reader accepts the trailing decimal point of precision=0 F38)', '90d029a 48bc62d 5176ec4 3bd1349 e7c5f7b 10da16e 120394c (C11/C13 CRTF; last one: frame attributes F34)', 'b532b53 b44d15d (C06 point/line/text sky contains() shape F203; sky contains() on latitude-first WCSs F205)']
 HOOK_COMMITS = []
 
 CHECKS = [
